@@ -738,18 +738,16 @@ func (el *HTMLElement) ensureStyles(ctx context.Context) error {
 	return nil
 }
 
-func (el *HTMLElement) parseStyles(ctx context.Context) (*values.Object, error) {
-	str, err := el.GetAttribute(ctx, "style")
+func (el *HTMLElement) parseStyles(_ context.Context) (*values.Object, error) {
+	// read the raw attribute: GetAttribute("style") answers with GetStyles,
+	// which would call back into parseStyles without end
+	str, exists := el.selection.Attr("style")
 
-	if err != nil {
-		return values.NewObject(), err
-	}
-
-	if str == values.None {
+	if !exists {
 		return values.NewObject(), nil
 	}
 
-	styles, err := common.DeserializeStyles(values.NewString(str.String()))
+	styles, err := common.DeserializeStyles(values.NewString(str))
 
 	if err != nil {
 		return nil, err
